@@ -198,6 +198,8 @@ def rank_run(fn, stmts, env, rets, pre=None):
 
 
 def run(cx):
+    from ..rules import exits_of
+    exits_of(cx, 'EXITS', ['stats.' + f_ for f_ in ('mean', 'gmean', 'median', 'mode', 'std', 'cv', 'gstd', 'gcv', 'iqr', 'rcv')])
     nfs = {}
     keep, sig = mode_keepdims_default()
     cx.tables['scipy.stats.mode signature'] = sig
